@@ -206,7 +206,10 @@ def trace_set(th, tier, seed):
         def one(job):
             fam, sh = job
             out = os.path.join(d, fam)
-            run_harness(binp, out, ["-mode", "random", "-family", fam, "-seed", str(seed), "-shard", str(sh), "-n", str(cfg["n"]), "-steps", str(cfg["steps"])])
+            n, steps = cfg["n"], cfg["steps"]
+            if fam == "rewards":
+                n, steps = n + 4, steps + 40
+            run_harness(binp, out, ["-mode", "random", "-family", fam, "-seed", str(seed), "-shard", str(sh), "-n", str(n), "-steps", str(steps)])
             tf = os.path.join(out, "%s-%d-%d.ndjson" % (fam, seed, sh))
             res = run_tlc(sd, tf)
             res["family"] = fam
